@@ -1,9 +1,38 @@
 package main
 
 import (
+	"strings"
+
 	"verifharness/internal/vh"
 )
 
+// F-C03b witness, end to end on the real code: stakes 1 (the Voter), 5, 5, 5; T = 16 gives p = 1, weight = stake, quorum 10.
+// The Server has already moved to index 2 (`S 9 2`), the Voter is still in index 1. Validator 2 claims weight 6 instead
+// of 5: VrfVerifySortition fails, Server.verifySortition forgives it ("older than my context"), the Voter counts 5 + 6 = 11
+// >= 10 in its CURRENT context and commits; the header verifier recounts 5 and rejects the header.
+var probeLenient = []string{
+	"E2E 7 16 16 9 4 20 20 20",
+	"S 9 2",
+	"C 9 1 4 0",
+	"V 3 9 1 1 11 1 5 2 0 1 1 1 1 16 1",
+	"V 3 9 1 1 11 2 6 2 0 1 1 1 1 16 2",
+	"D",
+}
+
 // probes replays the witnesses of the known findings of C03 on the real code.
 func probes(c *vh.Ctx, drv *vh.Driver) {
+	r := runScript(probeLenient, drv)
+	rep := false
+	what := "F-C03b witness no longer reproduces"
+	if r.mismatch != "" {
+		what = "F-C03b witness: model and real code disagree: " + r.mismatch
+		c.Res.Fail("correspondence", "", what, vh.WriteReplay(c.ReplayDir, "C03", "probe-lenient", c.Seed, []string{"kind correspondence"}, probeLenient))
+	}
+	for _, v := range r.viol {
+		if v.matcher == matcherLenient && strings.HasPrefix(v.what, "commit_verifies") {
+			rep = true
+			what = v.what
+		}
+	}
+	c.Res.Probes = append(c.Res.Probes, vh.Probe{ID: "F-C03b", Reproduced: rep, What: what})
 }
